@@ -95,6 +95,12 @@ func c10Scenarios() []c10Scenario {
 				Op{K: "publish", Topic: "t", Msgs: []MsgSpec{m(0, "k"), m(1, "k")}}, Op{K: "pull", Sub: "src", Max: 1}),
 			Waiters: []c10Waiter{{Sub: "src", Max: 10}, {Sub: "dl", Max: 10}},
 			Writers: []c10Writer{{Op: Op{K: "nack", Refs: []Ref{{N: 0, Sub: "src"}}}, Adds: map[string]int{"src": 1, "dl": 1}}}},
+		// the same, with a dead-letter topic nobody subscribes to: nothing is forwarded, the predecessor is retired all the same
+		{Name: "deadletter-ordered-predecessor-no-dl-subscriber", Subs: []string{"src"},
+			Setup: with(Op{K: "create_sub", Sub: "src", Cfg: cfg(SubCfg{Topic: "t", Ordered: true, MaxAtt: 1, DLT: "d"})},
+				Op{K: "publish", Topic: "t", Msgs: []MsgSpec{m(0, "k"), m(1, "k")}}, Op{K: "advance", D: Ms}, Op{K: "pull", Sub: "src", Max: 1}, Op{K: "advance", D: Ms}),
+			Waiters: []c10Waiter{{Sub: "src", Max: 10}},
+			Writers: []c10Writer{{Op: Op{K: "nack", Refs: []Ref{{N: 0, Sub: "src"}}}, Adds: map[string]int{"src": 1}}}},
 		{Name: "sweep-forward-into-topic", Subs: []string{"dl", "dl2"},
 			Setup: with(Op{K: "create_sub", Sub: "src", Cfg: cfg(SubCfg{Topic: "t", MaxAtt: 1, DLT: "d"})},
 				Op{K: "create_sub", Sub: "dl", Cfg: cfg(SubCfg{Topic: "d"})}, Op{K: "create_sub", Sub: "dl2", Cfg: cfg(SubCfg{Topic: "d"})},
